@@ -838,6 +838,22 @@ func genDict(r *rand.Rand) ([]rawAttr, []rawChordDef, []string) {
 		chords = append(chords, c)
 		queries = append(queries, bn[0], bn[1], c.display)
 	}
+	if r.Intn(6) == 0 { // the same name defined twice in one file: the second replaces the first, whose display stays behind as an alias
+		first := rawChordDef{name: "Twice", display: "tw1", attrs: []string{"Perfect1"}}
+		switch r.Intn(4) {
+		case 0:
+			first.extends = "tw1" // the stale alias extends itself
+		case 1:
+			first.extends = "NoSuchChord"
+		case 2:
+			first.attrs = []string{"NoSuchAttr"}
+		case 3:
+			first.extends = "MajorTriad"
+		}
+		second := rawChordDef{name: "Twice", display: "tw2", extends: "MinorTriad"}
+		chords = append(chords, first, second)
+		queries = append(queries, "tw1", "tw2", "Twice")
+	}
 	// inconsistencies
 	switch r.Intn(10) {
 	case 0:
@@ -981,6 +997,32 @@ func streamDiatonic() {
 				real = "ok " + hxb(wres.stdout)
 			}
 			kr.lines = append(kr.lines, [2]string{wc.req("write"), real})
+		}
+		// the chords of the key in one piece, in random order with repeats (state kept between chords), once with a leading rest
+		all := append(append([]string{}, tri...), sev...)
+		if len(all) > 0 {
+			rr := rand.New(rand.NewSource(seed*7919 + int64(i)))
+			for _, lead := range []string{"", "R[1] "} {
+				var parts []string
+				for n := 0; n < 18; n++ {
+					parts = append(parts, all[rr.Intn(len(all))]+"[1]")
+				}
+				txt := lead + strings.Join(parts, " ")
+				cc := convCase{"syllable", k, []byte(txt)}
+				kr.lines = append(kr.lines, [2]string{cc.req(), runConv(cc)})
+				cres := runCrd(cc.text, 10*time.Second, "text", "conv", "syllable", "--key", k)
+				if cres.class() == "ok" {
+					if is, err := rawFromYAML(cres.stdout); err == nil {
+						wc := writeCase{flags: writeFlags{track: 1, instrument: "Piano", key: k}, is: is}
+						wres := runCrd(cres.stdout, 10*time.Second, "write", "--key", k)
+						real := wres.class()
+						if real == "ok" {
+							real = "ok " + hxb(wres.stdout)
+						}
+						kr.lines = append(kr.lines, [2]string{wc.req("write"), real})
+					}
+				}
+			}
 		}
 		results[i] = kr
 	})
